@@ -174,6 +174,86 @@ theorem C14_trace_who (w : World) (s : Sys) (hist : List (Nat × Op)) :
       exact (C14_shape w s.clock who s.fs (s.clients who) op e he).1
     · exact ih _ r hr
 
+/-! ### the `Bool` oracles of `Spec/CacheSpec.lean` (what `spec.c14` evaluates on the real trace) hold of the model -/
+
+/-- the URL to which this call may send the user's credentials -/
+def allowedUrl : Option Url :=
+  match op.mode with
+  | .dryrun => none
+  | .skipProfile => some st.cfg.url
+  | .normal =>
+    match (requestProfile w clock who fs st false).res with
+    | .ok (.prof p) => match serviceUrl w p with | .ok u => some u | .error _ => none
+    | _ => none
+
+theorem C14_oracle_profile (e : Ev) (he : e ∈ (step w clock who fs st op).evs) :
+    profileOk st.cfg.url e.req = true := by
+  by_cases hk : e.req.body.kind = .profile
+  · obtain ⟨h1, h2, h3⟩ := C14_profile w clock who fs st op e he hk
+    simp [profileOk, isPlaceholderCreds, h1, h2, h3]
+  · simp [profileOk, hk]
+
+theorem C14_oracle_creds (e : Ev) (he : e ∈ (step w clock who fs st op).evs) :
+    credsOk (allowedUrl w clock who fs st op) e.req = true := by
+  rcases step_origin w clock who fs st op e he with ⟨h, _, rfl, _⟩ | ⟨hk', hm, rfl⟩ | ⟨hk', hm, p, url, st', clock', hp, _, hu, rfl⟩
+  · simp [credsOk, profileEv, post_req, mkReq, profileBody, isPlaceholderCreds]
+  · simp [credsOk, allowedUrl, hm, post_req, mkReq]
+  · simp [credsOk, allowedUrl, hm, hp, hu, post_req, mkReq]
+
+theorem mem_setBy {who : Nat} {pre : List Ev} {c : Cookie} :
+    c ∈ setBy who pre ↔ ∃ e0 ∈ pre, e0.who = who ∧ e0.req.url.host = c.host ∧ (c.name, c.value) ∈ e0.set := by
+  induction pre with
+  | nil => simp [setBy]
+  | cons e es ih =>
+    simp only [setBy, List.mem_append, ih, List.mem_cons, exists_eq_or_imp]
+    constructor
+    · rintro (h | h)
+      · left
+        split at h
+        · rename_i hw
+          simp only [List.mem_map] at h
+          obtain ⟨nv, hnv, rfl⟩ := h
+          exact ⟨hw, rfl, hnv⟩
+        · cases h
+      · exact .inr h
+    · rintro (⟨hw, hh, hs⟩ | h)
+      · left
+        rw [if_pos hw]
+        simp only [List.mem_map]
+        exact ⟨(c.name, c.value), hs, by cases c; simp_all⟩
+      · exact .inr h
+
+theorem originOk_iff (pre tr : List Ev) :
+    originOk pre tr = true ↔
+      ∀ a e post, tr = a ++ e :: post → ∀ nv ∈ e.req.cookies,
+        (⟨e.req.url.host, nv.1, nv.2⟩ : Cookie) ∈ setBy e.who (pre ++ a) := by
+  induction tr generalizing pre with
+  | nil => simp [originOk]
+  | cons x xs ih =>
+    simp only [originOk, Bool.and_eq_true, List.all_eq_true, List.contains_iff_mem, ih]
+    constructor
+    · rintro ⟨h1, h2⟩ a e post heq nv hnv
+      cases a with
+      | nil =>
+        simp at heq; obtain ⟨rfl, rfl⟩ := heq
+        simpa using h1 nv hnv
+      | cons y ys =>
+        simp at heq; obtain ⟨rfl, rfl⟩ := heq
+        simpa using h2 ys e post rfl nv hnv
+    · intro h
+      refine ⟨fun nv hnv => by simpa using h [] x xs rfl nv hnv, ?_⟩
+      intro a e post heq nv hnv
+      subst heq
+      simpa using h (x :: a) e post rfl nv hnv
+
+/-- the origin oracle the harness evaluates on the real trace is always true of the model's trace -/
+theorem C14_oracle_origin (s0 : Sys) (hjar : ∀ who, (s0.clients who).jar = []) (hist : List (Nat × Op)) :
+    originOk [] (Sys.trace w s0 hist) = true := by
+  rw [originOk_iff]
+  intro a e post heq nv hnv
+  obtain ⟨e0, he0, hw, hh, hs⟩ := (C14_cookies w s0 hjar hist a e post heq).1 nv hnv
+  exact mem_setBy.mpr ⟨e0, by simpa using he0, hw, hh, hs⟩
+
 -- the guards are satisfiable: a normal statements call against a server whose profile advertises another host
 -- issues the PROFRQ to the configured URL and the statement request, with the user's credentials, to the advertised one
 section Example
@@ -181,6 +261,15 @@ def exWorld : World :=
   { net := fun n _ => if n = 0 then ⟨[(1, 7)], false, .profile ⟨3, 1, 0⟩⟩ else ⟨[], false, .garbage⟩,
     adv := fun _ => [⟨1, 0⟩, ⟨1, 0⟩] }
 def exClient : ClientSt := ⟨⟨⟨0, 0⟩, some "alice".toList, none, none, none, true⟩, []⟩
+-- two instances talking to the same host: each gets back only its own cookie
+def exSys : Sys := ⟨fun _ => exClient, FS.empty, 0⟩
+def exCookieWorld : World :=
+  { net := fun n _ => ⟨[(1, 100 + n)], false, .garbage⟩, adv := fun _ => [] }
+example : ((Sys.trace exCookieWorld exSys
+      [(0, ⟨.tax, .skipProfile, []⟩), (1, ⟨.tax, .skipProfile, []⟩), (0, ⟨.tax, .skipProfile, []⟩),
+       (1, ⟨.tax, .skipProfile, []⟩)]).map fun e => (e.who, e.req.cookies, e.set)) =
+    [(0, [], [(1, 100)]), (1, [], [(1, 101)]), (0, [(1, 100)], [(1, 102)]), (1, [(1, 101)], [(1, 103)])] := by
+  decide
 example : ((step exWorld 0 0 FS.empty exClient ⟨.statements, .normal, "pw".toList⟩).evs.map
       fun e => (e.req.url, e.req.body.kind, decide (e.req.body.user = authPlaceholder), e.req.cookies)) =
     [((⟨0, 0⟩ : Url), Kind.profile, true, []), (⟨1, 0⟩, Kind.statements, false, [])] := by decide
